@@ -15,7 +15,7 @@ def events(ctx):
         cfg = rnd_cfg(rng)
         cfg["segctrl"] = rng.randrange(2)
         over = rng.random() < 0.05
-        yield record("pdu.rt", {"kind": "filedata", "cfg": cfg, "p": rnd_params(rng, "filedata", cfg["large"], over),
+        yield record("pdu.rt", {"kind": "filedata", "cfg": cfg, "p": rnd_params(rng, "filedata", cfg["large"], over), **({"via": "setter"} if (not over and rng.random() < 0.2) else {}),
                                 "sfx": [] if rng.random() < 0.7 else rnd_bytes(rng, rng.randrange(1, 6))})
     # data field length at the 16-bit limit: 65 535 must pack, 65 536 must be refused (never a wrapped length field)
     for n in ctx.q([4096, 65535 - 4, 65535 - 3], [4096, 30000, 65535 - 8 - 2 - 64, 65535 - 5, 65535 - 4, 65535 - 3, 65535 - 2]):
